@@ -142,8 +142,8 @@ def run(report, tier):
     apirun.run_config(report, 'MC_C01M', observer=observer, report_kinds=('S',), overrides={'Want': '<-MC_WantH'})
     apirun.run_config(report, 'MC_C19R', observer=observer, report_kinds=('S',), tag='reductions',
                       overrides={'En': '<-MC_EnNeg', 'Want': '<-MC_WantHV', 'SingValues': '<-MC_NoSing'})
-    if tier == 'thorough':      # one call deeper over a reduced alphabet (3 functions, 2 literals)
-        apirun.run_config(report, 'MC_C01', observer=observer, report_kinds=('S',), overrides=dict({'MaxCalls': 3, 'Fns': '<-MC_FnsSmall', 'ScalarLits': '<-MC_ScalarLitsSmall'}, Want='<-MC_WantH'), tag='deep')
+    if tier == 'thorough':      # one call deeper over a reduced alphabet (3 functions, 2 literals, operators + * **)
+        apirun.run_config(report, 'MC_C01', observer=observer, report_kinds=('S',), overrides=dict({'MaxCalls': 3, 'Fns': '<-MC_FnsSmall', 'ScalarLits': '<-MC_ScalarLitsSmall', 'SOps': '<-MC_SOpsSmall', 'VOps': '<-MC_VOpsSmall', 'Indices': '<-MC_IndicesSmall'}, Want='<-MC_WantH'), tag='deep')
     return report.finish(
         rule='every Api program of <= MaxCalls calls with a scalar result over <= 3 variables: compute_hessian (every entry, both '
              'triangles) and compile_hessian for every permutation / superset variable list at up to 3 points regular for the '
